@@ -151,7 +151,7 @@ def audit_scope(chk, prog, cg, roots, scope, tier, rid_s, rid_t, allow, boundary
                 continue
             hit = None
             for (rx, kk, dd, reason) in allow:
-                if re.search(rx, short(path)) and kk == k and (dd == d or re.fullmatch(dd, d)):
+                if (re.search(rx, short(path)) or re.search(rx, path)) and kk == k and (dd == d or re.fullmatch(dd, d)):
                     hit = ('D3', reason)
             for (rx, kk, dd, reason) in boundary:
                 if re.search(rx, path) and kk == k and re.search(dd, d):
